@@ -1,0 +1,1 @@
+//! Verification facade: `cache` (feature `verif`).
